@@ -290,7 +290,9 @@ def unit(run, scope_files=None, layout=False):
                 while o_[0] == "call" and (o_[1].get("callee") or "") in ("std::hint::must_use", "std::ops::Deref::deref", "std::string::String::as_str") and o_[1]["args"] and hops < 4:
                     o_ = peel(f.origin_op(o_[1]["args"][0]))
                     hops += 1
-                formatted = o_[0] == "call" and (o_[1].get("callee") or "") in ("std::fmt::format", "alloc::fmt::format")
+                formatted = o_[0] == "call" and ((o_[1].get("callee") or "") in ("std::fmt::format", "alloc::fmt::format") or
+                                                 # `n.to_string()` of an integer: digits only
+                                                 ((o_[1].get("callee") or "").endswith("ToString::to_string") and re.fullmatch(r"&?(usize|u8|u16|u32|u64|u128|isize|i8|i16|i32|i64|i128)", ((o_[1].get("arg_tys") or [""])[0]))))
                 if not formatted:
                     seed(dn, "Byte", "result of %s at %s" % (c.rsplit("::", 1)[-1], where))
             if c in ("std::vec::Vec::<T, A>::len", "core::slice::<impl [T]>::len") and atys and CHAR_VEC_TY.search(atys[0]) and dn:
